@@ -306,13 +306,25 @@ End Registry.
 
 (* ---------- referrers tag schema (referrersByTagSchema + referrersFromIndex) ---------- *)
 
+(* applyReferrerChanges(referrers, nil) as used on read: entries that are empty descriptors
+   and entries whose descriptor (media type, digest, size -- here: the name) occurred before
+   are skipped *)
+Fixpoint clean_index_aux (seen : list str) (items : list item) : list item :=
+  match items with
+  | [] => []
+  | it :: r =>
+    if is_empty (fst it) || existsb (str_eqb (fst it)) seen then clean_index_aux seen r
+    else it :: clean_index_aux (fst it :: seen) r
+  end.
+Definition clean_index (items : list item) : list item := clean_index_aux [] items.
+
 (* found: the referrers tag exists; size: the size of the index (Content-Length);
-   items: what the whole index lists *)
+   items: the manifests of the whole index as listed (possibly with repeated or empty entries) *)
 Definition tag_schema (limit : Z) (found : bool) (size : Z) (items : list item) (at_ : str)
            (cb_fail : nat -> bool) : list (list item) * outcome :=
   if negb found then ([], Done)
   else if limit_size_rejects limit size then ([], ErrSize)
-  else match filter_referrers items at_ with
+  else match filter_referrers (clean_index items) at_ with
        | [] => ([], Done)
        | f => if cb_fail 0%nat then ([f], ErrCallback) else ([f], Done)
        end.
